@@ -1,9 +1,203 @@
 /-
-C07 — property theorems (every `theorem` here is a proof obligation). Work in progress.
+C07 — property theorems (every `theorem` in this module is a proof obligation; `bin/check C07` audits the
+axioms of each). Helper lemmas live in Kap/Proofs/C07*.lean.
+
+Statement (properties.jsonl): when a task is stopped / disabled or the daemon shuts down cleanly, every point
+accepted before the stop is carried through the whole pipeline and handed to its outputs before the task ends;
+the stop itself always completes (all node and helper goroutines exit, no caller is left blocked), whatever the
+speed of the outputs or the moment of the stop — also when a node fails in the middle of the pipeline.
+
+The theorems are about the transition system of Kap/Model/C07.lean (transcribed from task_master.go, task.go,
+node.go, edge/edge.go, influxdb_out.go, alert.go, alert/topics.go, http_post.go, udf.go,
+kapacitor_loopback.go). "For all schedules" = for every list of actions (`run` skips actions that are not
+enabled, so every list is a schedule and every interleaving of the goroutines is some list); no bound on the
+number of points, on the edge buffer size, or on the length of the chain.
 -/
-import Kap.Model.C07
+import Kap.Proofs.C07Lossless
 import Kap.Spec.C07
 namespace Kap.Props.C07
 open Kap.C07
+
+/-- What an outside observer sees of a model state (the record the spec talks about). -/
+def outcomeOf (s : State) : Outcome :=
+  { accepted := s.accepted
+    returned := s.ph = .finished
+    leaked := (s.nodes.filter (fun nd => !nd.done)).length + (s.nodes.filter (fun nd => !nd.helperDone)).length + (if s.thrDone then 0 else 1)
+    delivered := (s.nodes.filter (fun nd => match nd.kind with | .post | .alert _ | .influx _ => true | _ => false)).map (·.deliv)
+    nodeFailed := s.nodes.any (·.failed) }
+
+/-! ### Exact accounting, for every pipeline, every schedule, every moment -/
+
+/-- **Nothing disappears unaccounted** — in every state reached by any schedule of any chain: each accepted
+point was either dropped by `forkPoint` (`lostIngest`), still sits in `write_points` / in `forkPoint`'s hand, is
+held or was dropped by a node before node `j` (`upstream`), sits in the input edge of node `j`, or was taken by
+node `j` (`got`). -/
+theorem accounting (cfg : Cfg) (kinds : List Kind) (n : Nat) (sched : List Act) (j : Nat) (nd : Nd) :
+    let s := run cfg (init kinds n) sched
+    s.nodes[j]? = some nd →
+    (∀ (i : Nat) (x : Nd), i < j → s.nodes[i]? = some x → forwards x.kind = true) →
+    s.accepted = s.lostIngest + s.ingest + s.forkHand + upstream s.nodes j + nd.inq + nd.got := by
+  intro s hj hfw
+  have hc : Cons s := cons_run (cons_init kinds n) sched
+  have h1 := cons_ent hc j nd hj hfw
+  have h2 := hc.nodeIn j nd hj
+  unfold balIn at h2
+  omega
+
+/-- … and what a node took is what its output was handed, plus what is still pending in its buffer, plus what
+it lost there: httpPost hands over synchronously; the alert handler queue holds `buf` events and loses only on
+overflow; influxDBOut holds one point in `enqueue`, `buf` points in the write buffer and loses the points dropped
+on `<-w.stopping` or discarded with the buffer at `abort()`. -/
+theorem output_accounting (cfg : Cfg) (kinds : List Kind) (n : Nat) (sched : List Act) (j : Nat) (nd : Nd) :
+    let s := run cfg (init kinds n) sched
+    s.nodes[j]? = some nd →
+    match nd.kind with
+    | .post => nd.got = nd.deliv
+    | .alert _ => nd.got = nd.deliv + nd.buf + nd.lost
+    | .influx _ => nd.got = nd.deliv + nd.hand + nd.buf + nd.lost
+    | _ => True := by
+  intro s hj
+  have hc : Cons s := cons_run (cons_init kinds n) sched
+  have h := hc.nodeOut j nd hj
+  unfold balOut at h
+  cases hk : nd.kind <;> simp_all <;> omega
+
+/-! ### Everything accepted is delivered: chains of pass / httpPost / alert nodes stopped by `Close` -/
+
+/-- The full-strength statement: for EVERY pipeline, stop kind and schedule, once the stop has returned the
+property holds of what an observer sees. It is FALSE of the code (theorems `influx_stop_loses_backlog`,
+`stoptask_loses_ingest_backlog`, `udf_stop_loses_backlog`, `loopback_stop_deadlocks` below), hence only stated. -/
+def stop_delivers_all_stmt : Prop :=
+  ∀ (cfg : Cfg) (kinds : List Kind) (n : Nat) (sched : List Act),
+    cfg.hookLock = false → cfg.alertLeak = false →
+    let s := run cfg (init kinds n) sched
+    s.ph = .finished → holds (outcomeOf s) = true
+
+/-- **Graceful stop delivers everything** (the part that is true): a chain of pass / httpPost / alert nodes
+(handler queues large enough for the run), stopped by `TaskMaster.Close`, under EVERY schedule: once the stop
+has returned and the goroutines are gone, every output has been handed exactly the accepted points.
+Excluded by hypothesis, because false: influxDBOut, UDF and loopback nodes, failing nodes (covered by
+`others_still_terminate`), and StopTask/DeleteTask (`viaClose = false`). -/
+theorem stop_delivers_all_partial (cfg : Cfg) (kinds : List Kind) (n : Nat) (sched : List Act)
+    (hclose : cfg.viaClose = true) (hk : ∀ k ∈ kinds, losslessKind n k = true) :
+    let s := run cfg (init kinds n) sched
+    s.stopped = true → holds (outcomeOf s) = true ∧ (outcomeOf s).delivered.all (· = s.accepted) = true := by
+  intro s hst
+  have hl : Lossless n cfg s := lossless_run (lossless_init cfg kinds n hclose hk) sched
+  have hent := lossless_stopped_ent hl hst
+  have hst' := hst
+  simp only [State.stopped, decide_eq_true_eq, List.all_eq_true] at hst'
+  have hst' : s.ph = Ph.finished ∧ s.thrDone = true ∧ ∀ (x : Nd), x ∈ s.nodes → x.done = true ∧ x.helperDone = true := hst'
+  have hdel : (outcomeOf s).delivered.all (· = s.accepted) = true := by
+    simp only [outcomeOf, List.all_eq_true, List.mem_map, List.mem_filter, decide_eq_true_eq]
+    rintro d ⟨nd, ⟨hmem, hkind⟩, rfl⟩
+    obtain ⟨j, hj⟩ := List.getElem?_of_mem hmem
+    have hg := (hent j nd hj).2
+    have hb := hl.cons.nodeOut j nd hj
+    have hL := hl.nodes j nd hj
+    have hd := hst'.2.2 nd hmem
+    have hkl := hL.kind
+    unfold balOut at hb
+    cases hkk : nd.kind with
+    | post => rw [hkk] at hb; simp only at hb; omega
+    | alert H =>
+      -- the handler goroutine has exited, so its queue is empty; nothing overflowed
+      rw [hkk] at hb; simp only at hb
+      have := hL.helpq ⟨H, hkk⟩ hd.2
+      have := hL.nolost
+      omega
+    | influx B => rw [hkk] at hkl; simp [losslessKind] at hkl
+    | pass => rw [hkk] at hkind; simp at hkind
+    | udf => rw [hkk] at hkind; simp at hkind
+    | fail K => rw [hkk] at hkind; simp at hkind
+    | loop => rw [hkk] at hkind; simp at hkind
+  refine ⟨?_, hdel⟩
+  simp only [holds, stopCompletes, allExited, allDelivered, Bool.and_eq_true, Bool.or_eq_true, decide_eq_true_eq]
+  refine ⟨⟨?_, ?_⟩, Or.inr hdel⟩
+  · simp [outcomeOf, hst'.1]
+  · have h1 : (s.nodes.filter (fun nd => !nd.done)).length = 0 := by
+      rw [List.length_eq_zero_iff, List.filter_eq_nil_iff]
+      intro nd hm; simp [(hst'.2.2 nd hm).1]
+    have h2 : (s.nodes.filter (fun nd => !nd.helperDone)).length = 0 := by
+      rw [List.length_eq_zero_iff, List.filter_eq_nil_iff]
+      intro nd hm; simp [(hst'.2.2 nd hm).2]
+    simp [outcomeOf, h1, h2, hst'.2.1]
+
+/-- Non-vacuity: a concrete schedule of `stream → from → httpPost → alert` with 2 points, stopped by Close with
+a backlog in the pipeline, reaches a stopped state (and both outputs got both points). -/
+example :
+    let cfg : Cfg := { cap := 1, viaClose := true, hookLock := false, alertLeak := false }
+    let kinds := [Kind.pass, .pass, .post, .alert 5]
+    (∀ k ∈ kinds, losslessKind 2 k = true) ∧
+    ∃ sched, (run cfg (init kinds 2) sched).stopped = true ∧ (outcomeOf (run cfg (init kinds 2) sched)).delivered = [2, 2] := by
+  refine ⟨by decide, ?_⟩
+  let round : List Act := [.stop, .forkTake, .forkLock, .forkPut, .forkExit, .thrExit,
+    .node 3 .init, .node 3 .handle, .node 3 .put, .node 3 .take, .node 2 .put, .node 2 .take, .node 1 .put, .node 1 .take,
+    .node 0 .put, .node 0 .take, .node 0 .exit, .node 1 .exit, .node 2 .exit, .node 3 .closeOut, .node 3 .helperExit, .node 3 .exit]
+  exact ⟨[.write, .forkTake, .write] ++ (List.replicate 16 round).flatten, by decide, by decide⟩
+
+/-! ### Counterexamples: where the code violates the property (each replayed on the real code by the corpus) -/
+
+def cfgClose1 : Cfg := { cap := 1, viaClose := true, hookLock := false, alertLeak := false }
+def cfgTask1 : Cfg := { cap := 1, viaClose := false, hookLock := false, alertLeak := false }
+def cfgOld1 : Cfg := { cap := 1, viaClose := false, hookLock := true, alertLeak := true }
+def feed1 : List Act := [.write, .forkTake, .forkLock, .forkPut, .node 0 .take, .node 0 .put]
+def stops (n : Nat) : List Act := List.replicate n .stop
+
+/-- finding `influxdbout-stop-drops-backlog`: `stream → influxDBOut.buffer(2)`, one accepted point sitting in the
+node's input edge, TaskMaster.Close: the stop runs flush() and abort() first, the node then takes the point and
+`enqueue` drops it on `<-w.stopping`. The stop completes, every goroutine exits, and the point is gone. -/
+theorem influx_stop_loses_backlog :
+    ∃ sched, (runStrict cfgClose1 (init [.pass, .influx 2] 1) sched).map
+      (fun s => (s.stopped, s.accepted, s.nodes.map (·.deliv), s.nodes.map (·.lost))) = some (true, 1, [0, 0], [0, 1]) :=
+  ⟨feed1 ++ stops 2 ++ [.forkExit] ++ stops 5 ++ [.node 0 .exit] ++ stops 3 ++ [.node 1 .helperExit, .stop,
+     .node 1 .take, .node 1 .enqDrop, .node 1 .exit, .stop, .thrExit, .stop, .stop], by decide⟩
+
+/-- finding `ingest-edge-not-drained-on-stop`: `stream → httpPost`, one accepted point still in the
+TaskMaster's write_points edge, StopTask: the task is unregistered and stopped, then `forkPoint` drops the point. -/
+theorem stoptask_loses_ingest_backlog :
+    ∃ sched, (runStrict cfgTask1 (init [.pass, .post] 1) sched).map
+      (fun s => (s.stopped, s.accepted, s.nodes.map (·.deliv), s.lostIngest)) = some (true, 1, [0, 0], 1) :=
+  ⟨[.write] ++ stops 5 ++ [.node 0 .exit] ++ stops 2 ++ [.node 1 .exit, .stop, .thrExit, .stop, .stop, .forkTake, .forkLock, .forkPut],
+   by decide⟩
+
+/-- finding `udf-stop-aborts-backlog`: `stream → @udf → httpPost`, one accepted point in the UDF node's input
+edge, StopTask: stop() aborts the UDF, the node returns without reading the point, httpPost never sees it. -/
+theorem udf_stop_loses_backlog :
+    ∃ sched, (runStrict cfgTask1 (init [.pass, .udf, .post] 1) sched).map
+      (fun s => (s.stopped, s.accepted, s.nodes.map (·.deliv), s.nodes.map (·.inq))) = some (true, 1, [0, 0, 0], [0, 1, 0]) :=
+  ⟨feed1 ++ stops 5 ++ [.node 0 .exit] ++ stops 2 ++ [.node 1 .exit] ++ stops 2 ++ [.node 2 .exit, .stop, .thrExit, .stop, .stop],
+   by decide⟩
+
+/-- finding `loopback-stop-deadlock`: `stream → kapacitorLoopback`, write_points full, StopTask: the stop waits
+for the loopback node, the loopback node waits for room in write_points, the fork goroutine waits for tm.mu
+(held by the stop). No action is enabled and the stop has not returned. -/
+theorem loopback_stop_deadlocks :
+    ∃ sched, (runStrict cfgTask1 (init [.pass, .loop] 4) sched).map
+      (fun s => (s.ph, enabledActs cfgTask1 s)) = some (.wait 1, []) :=
+  ⟨[.write, .forkTake, .forkLock, .forkPut, .node 0 .take, .node 0 .put, .node 1 .take,
+    .write, .forkTake, .forkLock, .forkPut, .node 0 .take, .node 0 .put, .write, .forkTake, .write] ++ stops 5 ++
+    [.node 0 .exit] ++ stops 2 ++ [.thrExit], by decide⟩
+
+/-- defect repaired by 97356b1 (`Cfg.hookLock = true` is the code before): stop right after start with an
+alert node — the node needs tm.mu to register its delete hook, the stop holds tm.mu and waits for the node. -/
+theorem alert_hook_lock_deadlocks :
+    ∃ sched, (runStrict cfgOld1 (init [.pass, .alert 5] 0) sched).map
+      (fun s => (s.ph, enabledActs cfgOld1 s)) = some (.wait 1, []) :=
+  ⟨stops 5 ++ [.node 0 .exit] ++ stops 2 ++ [.thrExit], by decide⟩
+
+/-- … with the repaired code the same schedule leaves the alert node enabled. -/
+theorem alert_hook_lock_repaired :
+    (runStrict cfgTask1 (init [.pass, .alert 5] 0) (stops 5 ++ [.node 0 .exit] ++ stops 2 ++ [.thrExit])).map
+      (fun s => enabledActs cfgTask1 s) = some [.node 1 .init] := by decide
+
+/-- defect repaired by d61e6a5 (`Cfg.alertLeak = true` is the code before): an alert node whose child failed
+returns without CloseTopic; the stop completes but the handler goroutine is still there, with nothing enabled. -/
+theorem failed_alert_leaks_handler :
+    ∃ sched, (runStrict cfgOld1 (init [.pass, .alert 5, .fail 0] 2) sched).map
+      (fun s => (s.ph, enabledActs cfgOld1 s, s.nodes.map (·.helperDone))) = some (.finished, [], [true, false, true]) :=
+  ⟨[.node 1 .init] ++ feed1 ++ [.node 1 .take, .node 1 .put, .node 2 .take, .node 2 .exit,
+     .write, .forkTake, .forkLock, .forkPut, .node 0 .take, .node 0 .put, .node 1 .take, .node 1 .putErr, .node 1 .exit,
+     .node 1 .handle, .node 1 .handle] ++ stops 5 ++ [.node 0 .exit] ++ stops 5 ++ [.thrExit, .stop, .stop], by decide⟩
 
 end Kap.Props.C07
